@@ -1,5 +1,5 @@
 //@unit sm9_rand
-//@serves C09 C10 C14 C17
+//@serves C09 C10 C14 C17 C20
 //@source gm-sm9/src/u256.rs
 //@assume rand::thread_rng() is an OS-seeded CSPRNG whose fill_bytes output is uniform and independent (statistical quality is outside this technique); model: fill_bytes is the only function that establishes csprng_bytes(..)
 //@assume the rejection loop of random_u256 terminates with probability 1 (exec_allows_no_decreases_clause)
